@@ -1150,6 +1150,9 @@ func runSitesThroughValues(fn *ssa.Function, scope []*ssa.Function) (sites []val
 		inScope[f] = true
 	}
 	for _, s := range callSitesOf(fn, scope) {
+		if w := s.Parent(); w != nil && w.Synthetic != "" && fn.Object() != nil && w.Object() == fn.Object() {
+			continue // the call inside fn's own bound-method wrapper: the wrapper's value is followed below
+		}
 		sites = append(sites, valueSite{s, 0})
 	}
 	seen := map[ssa.Value]bool{}
